@@ -11,51 +11,87 @@
 -/
 import Lc.Lemmas.UmountTrace
 import Lc.Lemmas.UmountState
+import Lc.Lemmas.TreeOrder
+import Lc.Lemmas.KernelProbe
+import Lc.Lemmas.RunM
+import Lc.Lemmas.Probe
 import Lc.Props.C12
 
 namespace Lc.Props.C03
 open Lc.SortByAux
 open Lc Lc.Layers Lc.Mountinfo Lc.Trace Lc.UmountTrace Lc.Kernel Lc.KernelUmount Lc.UmountState Lc.KernelResolve
+open Lc.TreeOrder (NoCovered)
 
 /-! ### what `getMountAndSubmounts` returns -/
 
 /-- every listed mount sits on the path or below it (`path/…`) and is a mount of the table -/
 theorem getMountAndSubmounts_inside (m : Mounts) (path : Bytes) (x : MountType)
     (hx : x ∈ getMountAndSubmounts m path) :
-    x ∈ m.list ∧ (x.mountpoint = path ∨ hasPrefix x.mountpoint (path ++ [47]) = true) := by
-  unfold getMountAndSubmounts at hx
-  have := (mem_sortBy _ _ x).mp hx
-  simp only [List.mem_filter, Bool.or_eq_true, beq_iff_eq] at this
-  exact this
+    x ∈ m.list ∧ (x.mountpoint = path ∨ hasPrefix x.mountpoint (path ++ [47]) = true) :=
+  (TreeOrder.mem_getMountAndSubmounts m path x).mp hx
 
 /-- every mount of the table on the path or below it is listed, as often as it occurs
     (stacked mounts are separate entries): the result is a permutation of the filtered table -/
 theorem getMountAndSubmounts_complete (m : Mounts) (path : Bytes) :
     (getMountAndSubmounts m path).Perm
-      (m.list.filter fun x => x.mountpoint == path || hasPrefix x.mountpoint (path ++ [47])) := by
-  unfold getMountAndSubmounts
-  exact sortBy_perm _ _
+      (m.list.filter fun x => x.mountpoint == path || hasPrefix x.mountpoint (path ++ [47])) :=
+  TreeOrder.getMountAndSubmounts_perm_region m path
 
-/-- sorted by mountpoint, non-strictly (stacked mounts repeat a mountpoint) -/
-theorem getMountAndSubmounts_sorted (m : Mounts) (path : Bytes) :
+/-- the mounts at/below the path, sorted by mountpoint: what `GetMountAndSubmounts` returned
+    before fix 05db66c, and still returns when no listed mount covers a listed sibling -/
+def pathSorted (m : Mounts) (path : Bytes) : List MountType := TreeOrder.sortedRegion m path
+
+/-- **getMountAndSubmounts_perm**: in every case — also when the list is re-ordered along the
+    mount tree — a permutation of the path-sorted list -/
+theorem getMountAndSubmounts_perm (m : Mounts) (path : Bytes) :
+    (getMountAndSubmounts m path).Perm (pathSorted m path) :=
+  TreeOrder.getMountAndSubmounts_perm_sorted m path
+
+/-- `NoCovered m path` (Lemmas/TreeOrder): no mount listed at/below `path` covers another one
+    (`Mountinfo.covers a b`: same parent id, `b`'s mountpoint below `a`'s).  Then the list is
+    the path-sorted one; always so when the entries carry no ids. -/
+theorem getMountAndSubmounts_pathSorted (m : Mounts) (path : Bytes) (hnc : NoCovered m path) :
+    getMountAndSubmounts m path = pathSorted m path :=
+  TreeOrder.getMountAndSubmounts_noCovered m path hnc
+
+/-- nothing covered: sorted by mountpoint, non-strictly (stacked mounts repeat a mountpoint) -/
+theorem getMountAndSubmounts_sorted (m : Mounts) (path : Bytes) (hnc : NoCovered m path) :
     (getMountAndSubmounts m path).Pairwise (fun a b => bytesLt b.mountpoint a.mountpoint = false) := by
-  unfold getMountAndSubmounts
-  exact sortBy_sorted (fun a b : MountType => bytesLt a.mountpoint b.mountpoint)
+  rw [getMountAndSubmounts_pathSorted m path hnc]
+  exact Lc.SortByAux.sortBy_sorted (fun a b : MountType => bytesLt a.mountpoint b.mountpoint)
     (fun a => bytesLt_irrefl _) (fun a b c h1 h2 => bytesLt_trans h1 h2) _
+
+/-- **treeOrder_parent_first**: when the list is re-ordered along the mount tree, every mount
+    still precedes the mounts hanging below it (nothing listed after an entry has the id that is
+    the entry's parent id), provided this is so in the path-sorted list (it is when a child's
+    mountpoint extends its parent's), ids are unique and nobody is its own parent -/
+theorem treeOrder_parent_first (l : List MountType) (hnd : (l.map (·.id)).Nodup)
+    (hns : ∀ x ∈ l, x.id ≠ x.parent) (hl : l.Pairwise (fun x y => y.id ≠ x.parent)) :
+    (inTreeOrder l).Pairwise (fun x y => y.id ≠ x.parent) :=
+  TreeOrder.inTreeOrder_parent_first l hnd hns hl
+
+/-- **treeOrder_covered_first**: … and a covered mount precedes the mount that covers it, so that
+    going through the list from its end the covering mount is unmounted first.  (That the
+    submounts of the covered mount precede the covering one as well is not proved in general; it
+    is evaluated on the witness `umount_hidden_submount_fixed_witness` and judged by the oracle.) -/
+theorem treeOrder_covered_first (pre rest : List MountType) (a b : MountType) (ha : a ∈ pre)
+    (hc : covers a b = true) : [b, a].Sublist (inTreeOrder (pre ++ b :: rest)) :=
+  TreeOrder.inTreeOrder_covered_first pre rest a b ha hc
 
 /-- `later` is a proper extension of `earlier` (as a byte string; a mount beneath
     `earlier` has mountpoint `earlier ++ "/" ++ …`) -/
 def ProperExt (earlier later : Bytes) : Prop := ∃ s, s ≠ [] ∧ later = earlier ++ s
 
 /-- **umount_leaf_order (list form)**: in the issue order of a layer whose `mounts` field
-    was filled by `getMountAndSubmounts`, no later target properly extends an earlier one:
-    when a target is unmounted every listed mount beneath it has already been unmounted. -/
+    was filled by `getMountAndSubmounts` from a table in which nothing listed is covered, no
+    later target properly extends an earlier one: when a target is unmounted every listed mount
+    beneath it has already been unmounted. -/
 theorem issueOrder_children_first (l : Layer) (m : Mounts) (path : Bytes)
-    (hm : l.mounts = getMountAndSubmounts m path) :
+    (hm : l.mounts = getMountAndSubmounts m path) (hnc : NoCovered m path) :
     (issueOrder l).Pairwise (fun earlier later => ¬ ProperExt earlier later) := by
   unfold issueOrder
   rw [List.pairwise_map, List.pairwise_reverse, hm]
-  refine List.Pairwise.imp ?_ (getMountAndSubmounts_sorted m path)
+  refine List.Pairwise.imp ?_ (getMountAndSubmounts_sorted m path hnc)
   intro a b hab ⟨s, hs, he⟩
   -- a before b in the sorted list: ¬ b < a; in issue order b is earlier, a later
   have := prefix_lt b.mountpoint s hs
@@ -114,16 +150,17 @@ theorem umount_targets_inside (cfg : Config) (d : Defs) (name : Bytes) (w : Worl
 
 /-- **umount_leaf_order**: without the pretend switch, the unmount calls of `unmountLayer`
     are issued exactly in the order `l.mounts.reverse` (an error exit stops somewhere in it),
-    and — the list having been filled by `getMountAndSubmounts` — no target issued later lies
-    beneath (properly extends) a target issued earlier. -/
+    and — the list having been filled by `getMountAndSubmounts` from a table in which nothing
+    listed is covered (`NoCovered`; otherwise the list follows the mount tree) — no target issued
+    later lies beneath (properly extends) a target issued earlier. -/
 theorem umount_leaf_order (cfg : Config) (d : Defs) (name : Bytes) (w : World) (s : List Op)
     (hp : w.pretend = false) (h : Emitted (unmountLayer cfg d name) w s)
     (l : Layer) (hl : findLayer d name = some l) (m : Mounts) (path : Bytes)
-    (hm : l.mounts = getMountAndSubmounts m path) :
+    (hm : l.mounts = getMountAndSubmounts m path) (hnc : NoCovered m path) :
     (∃ pre rest, issueOrder l = pre ++ rest ∧ UmountsOf pre s ∧
       (∀ d', ((unmountLayer cfg d name).run.run w).1 = .ok (.ok, d') → rest = [])) ∧
     (issueOrder l).Pairwise (fun earlier later => ¬ ProperExt earlier later) := by
-  refine ⟨?_, issueOrder_children_first l m path hm⟩
+  refine ⟨?_, issueOrder_children_first l m path hm hnc⟩
   obtain ⟨s0, he, _, hN, hE⟩ := unmountLayer_run cfg d name w
   have := h.unique he
   subst this
@@ -331,7 +368,7 @@ namespace Example
 def cfg0 : Config := { basepath := b!"/b", layerdirs := b!"/b/L", buildRoot := b!"build", binPkg := b!"pk", generated := b!"gen", workdir := b!"work", upperdir := b!"upper", exportdirs := b!"/b/E", exportBinPkg := b!"p", exportGenerated := b!"g" }
 /-- cached table: overlay on the build path, a mount beneath it, and a foreign mount whose
     path merely starts with the same bytes (`/b/L/xy`) -/
-def m1 : Mounts := { list := [⟨b!"devtmpfs", b!"/b/L/x/build/dev", [], [], b!"devtmpfs", [], false, b!"0:5", [47]⟩, ⟨b!"overlay", b!"/b/L/x/build", [], [], b!"overlay", [], false, b!"0:9", [47]⟩, ⟨b!"x", b!"/b/L/xy", [], [], b!"tmpfs", [], false, b!"0:7", [47]⟩] }
+def m1 : Mounts := { list := [⟨b!"devtmpfs", b!"/b/L/x/build/dev", [], [], b!"devtmpfs", [], false, b!"0:5", [47], [], []⟩, ⟨b!"overlay", b!"/b/L/x/build", [], [], b!"overlay", [], false, b!"0:9", [47], [], []⟩, ⟨b!"x", b!"/b/L/xy", [], [], b!"tmpfs", [], false, b!"0:7", [47], [], []⟩] }
 def lm : Layer := { name := b!"x", layerPath := b!"/b/L/x", state := S_mounted, mounts := getMountAndSubmounts m1 b!"/b/L/x/build" }
 def d1 : Defs := { layers := [lm], order := [b!"x"] }
 def w1 : World := { faultAt := some 2 }
@@ -375,37 +412,110 @@ end Example
   `mountedAt_eq_topmostAt`). -/
 
 /-- **ViewAgrees**: the layer's `mounts` list was filled by `getMountAndSubmounts` from a
-    cached table `view` that shows, at or below the build root `bp`, the same mountpoints in
-    the same order as the kernel table `t` (stacked mounts as often as they occur).  This is
-    what `getLayers` establishes: `probeAll` sets `l.mounts := getMountAndSubmounts d.mounts
-    (buildPath l)` with `d.mounts = Kernel.probe w.kt`, and `probe_render` (Props/C12) says the
-    probe returns one entry per kernel mount, in table order, with its mountpoint. -/
+    cached table `view` that shows, at or below the build root `bp`, the same mounts in the same
+    order as the kernel table `t` — mount id, parent id (as the kernel prints them) and
+    mountpoint; stacked mounts as often as they occur.  This is what `getLayers` establishes:
+    `probeAll` sets `l.mounts := getMountAndSubmounts d.mounts (buildPath l)` with `d.mounts =
+    Kernel.probe w.kt`, and `probe_render` (Props/C12) says the probe returns one entry per
+    kernel mount, in table order, with its ids and mountpoint (`viewAgrees_of_probe`). -/
 def ViewAgrees (l : Layer) (bp : Bytes) (t : KTable) : Prop :=
   ∃ view : Mounts, l.mounts = getMountAndSubmounts view bp ∧
-    (view.list.filter (fun x => atOrBelow bp x.mountpoint)).map (·.mountpoint) =
-      (t.mnts.filter (fun m => atOrBelow bp m.mp)).map (·.mp)
+    (view.list.filter (fun x => atOrBelow bp x.mountpoint)).map (fun x => (x.id, x.parent, x.mountpoint)) =
+      (t.mnts.filter (fun m => atOrBelow bp m.mp)).map (fun m => (natBytes m.id, natBytes m.parent, m.mp))
+
+theorem ViewAgrees.mountpoints {l : Layer} {bp : Bytes} {t : KTable} (h : ViewAgrees l bp t) :
+    ∃ view : Mounts, l.mounts = getMountAndSubmounts view bp ∧
+      (view.list.filter (fun x => atOrBelow bp x.mountpoint)).map (·.mountpoint) =
+        (t.mnts.filter (fun m => atOrBelow bp m.mp)).map (·.mp) := by
+  obtain ⟨view, hm, hv⟩ := h
+  refine ⟨view, hm, ?_⟩
+  have := congrArg (List.map (fun (x : Bytes × Bytes × Bytes) => x.2.2)) hv
+  simpa [List.map_map, Function.comp_def] using this
 
 /-- under `ViewAgrees` the issue order is a permutation of the kernel's mountpoints of the region -/
 theorem ViewAgrees.perm {l : Layer} {bp : Bytes} {t : KTable} (h : ViewAgrees l bp t) :
     (issueOrder l).Perm ((t.mnts.filter (fun m => atOrBelow bp m.mp)).map (·.mp)) := by
-  obtain ⟨view, hm, hv⟩ := h
+  obtain ⟨view, hm, hv⟩ := h.mountpoints
   rw [← hv]
   unfold issueOrder
   rw [hm]
   exact ((List.reverse_perm _).trans (getMountAndSubmounts_complete view bp)).map _
 
-/-- … and leaf-first: no target properly extends an earlier one (`issueOrder_children_first`) -/
-theorem ViewAgrees.leafFirst {l : Layer} {bp : Bytes} {t : KTable} (h : ViewAgrees l bp t) :
-    (issueOrder l).Pairwise (fun earlier later => ¬ Ext earlier later) := by
-  obtain ⟨view, hm, _⟩ := h
-  exact issueOrder_children_first l view bp hm
+/-- no listed mount of the layer covers a listed sibling -/
+def NoCoveredL (l : Layer) : Prop := ∀ a ∈ l.mounts, ∀ b ∈ l.mounts, covers a b = false
 
-theorem entries_mountpoints (ts : List Spec.KMount) :
-    (C12.entries ts).map (·.mountpoint) = ts.map (·.mp) := by
-  have h : ∀ (sh : Bool) (m : Spec.KMount), (C12.entryWith sh m).mountpoint = m.mp := by
+theorem NoCoveredL.of_view {l : Layer} {view : Mounts} {bp : Bytes} (hm : l.mounts = getMountAndSubmounts view bp)
+    (h : NoCoveredL l) : NoCovered view bp := by
+  intro a ha b hb
+  have hmem : ∀ x ∈ TreeOrder.regionOf view bp, x ∈ l.mounts := by
+    intro x hx
+    rw [hm]
+    exact (TreeOrder.getMountAndSubmounts_perm_region view bp).mem_iff.mpr hx
+  exact h a (hmem a ha) b (hmem b hb)
+
+/-- … and leaf-first, when nothing listed is covered: no target properly extends an earlier one
+    (`issueOrder_children_first`) -/
+theorem ViewAgrees.leafFirst {l : Layer} {bp : Bytes} {t : KTable} (h : ViewAgrees l bp t)
+    (hnc : NoCoveredL l) : (issueOrder l).Pairwise (fun earlier later => ¬ Ext earlier later) := by
+  obtain ⟨view, hm, _⟩ := h
+  exact issueOrder_children_first l view bp hm (hnc.of_view hm)
+
+/-- **a kernel table without hidden mounts shows no covered mount**: under `ViewAgrees`,
+    `NoHidden` of the kernel table (siblings never nested) gives `NoCoveredL` of the layer's
+    list — mount ids are printed injectively (`natBytes_injective`) -/
+theorem noCoveredL_of_noHidden {l : Layer} {bp : Bytes} {t : KTable} (h : ViewAgrees l bp t)
+    (hnh : NoHidden t.mnts) : NoCoveredL l := by
+  obtain ⟨view, hm, hv⟩ := h
+  -- every listed mount is the image of a kernel entry
+  have himg : ∀ x ∈ l.mounts, ∃ k ∈ t.mnts, x.id = natBytes k.id ∧ x.parent = natBytes k.parent ∧
+      x.mountpoint = k.mp := by
+    intro x hx
+    rw [hm] at hx
+    have hx' : x ∈ view.list.filter (fun x => atOrBelow bp x.mountpoint) := by
+      have := (TreeOrder.getMountAndSubmounts_perm_region view bp).mem_iff.mp hx
+      exact this
+    have h1 : (x.id, x.parent, x.mountpoint) ∈
+        (view.list.filter (fun x => atOrBelow bp x.mountpoint)).map (fun x => (x.id, x.parent, x.mountpoint)) :=
+      List.mem_map.mpr ⟨x, hx', rfl⟩
+    rw [hv] at h1
+    obtain ⟨k, hk, hke⟩ := List.mem_map.mp h1
+    simp only [Prod.mk.injEq] at hke
+    exact ⟨k, (List.mem_filter.mp hk).1, hke.1.symm, hke.2.1.symm, hke.2.2.symm⟩
+  intro a ha b hb
+  cases hc : covers a b with
+  | false => rfl
+  | true =>
+    exfalso
+    obtain ⟨ka, hka, ia, pa, ma⟩ := himg a ha
+    obtain ⟨kb, hkb, ib, pb, mb⟩ := himg b hb
+    unfold covers at hc
+    simp only [Bool.and_eq_true, decide_eq_true_eq, bne_iff_ne, ne_eq, beq_iff_eq] at hc
+    obtain ⟨⟨⟨⟨_, hid⟩, _⟩, hpar⟩, hpre⟩ := hc
+    have hne : ka ≠ kb := by
+      intro e; apply hid; rw [ia, ib, e]
+    have hsib : Siblings t.mnts ka kb := .inl (KernelProbe.natBytes_injective (by rw [← pa, ← pb, hpar]))
+    have hu : pathUnder ka.mp kb.mp = true := by
+      rw [ma, mb] at hpre
+      rw [pathUnder_iff]
+      right
+      obtain ⟨r, hr⟩ := (ExportFs.hasPrefix_iff _ _).mp hpre
+      unfold sl
+      by_cases h47 : ka.mp = [47]
+      · rw [h47] at hr ⊢
+        exact ⟨[47] ++ r, by rw [hr]; rfl⟩
+      · have : (ka.mp == [47]) = false := by simpa using h47
+        rw [this]
+        exact ⟨r, hr⟩
+    rw [hnh.sib ka hka kb hkb hne hsib] at hu
+    cases hu
+
+theorem entries_keys (ts : List Spec.KMount) :
+    (C12.entries ts).map (fun x => (x.id, x.parent, x.mountpoint)) = ts.map (fun m => (m.id, m.parent, m.mp)) := by
+  have h : ∀ (sh : Bool) (m : Spec.KMount), (C12.entryWith sh m).mountpoint = m.mp ∧
+      (C12.entryWith sh m).id = m.id ∧ (C12.entryWith sh m).parent = m.parent := by
     intro sh m
     unfold C12.entryWith Spec.expectedOf
-    split <;> rfl
+    split <;> exact ⟨rfl, rfl, rfl⟩
   unfold C12.entries
   apply List.ext_getElem?
   intro i
@@ -414,11 +524,16 @@ theorem entries_mountpoints (ts : List Spec.KMount) :
   | none => rfl
   | some m => simp [h]
 
+theorem entries_mountpoints (ts : List Spec.KMount) :
+    (C12.entries ts).map (·.mountpoint) = ts.map (·.mp) := by
+  have := congrArg (List.map (fun (x : Bytes × Bytes × Bytes) => x.2.2)) (entries_keys ts)
+  simpa [List.map_map, Function.comp_def] using this
+
 /-- **what `getLayers` establishes**: if the probe of the kernel table (the mountinfo text the
     kernel model renders, read by the model of `ProbeMounts`) returns `view` and the layer's
-    list was filled from it, the view agrees with the table.  By `probe_render` (Props/C12);
-    `hwf` is its well-formedness condition on the rendered lines (token fields free of blanks,
-    no carriage return at a line end). -/
+    list was filled from it, the view agrees with the table — ids, parent ids, mountpoints.  By
+    `probe_render` (Props/C12); `hwf` is its well-formedness condition on the rendered lines
+    (token fields free of blanks, no carriage return at a line end). -/
 theorem viewAgrees_of_probe (t : KTable) (view : Mounts) (l : Layer) (bp : Bytes)
     (hwf : ∀ m ∈ t.mnts, (toSpec m).WF) (hp : Kernel.probe t = .ok view)
     (hm : l.mounts = getMountAndSubmounts view bp) : ViewAgrees l bp t := by
@@ -431,13 +546,30 @@ theorem viewAgrees_of_probe (t : KTable) (view : Mounts) (l : Layer) (bp : Bytes
   injection hp with hp
   subst hp
   simp only
-  have h1 : ∀ (xs : List MountType), (xs.filter (fun x => atOrBelow bp x.mountpoint)).map (·.mountpoint) =
-      (xs.map (·.mountpoint)).filter (atOrBelow bp) := by
+  have h1 : ∀ (xs : List MountType),
+      (xs.filter (fun x => atOrBelow bp x.mountpoint)).map (fun x => (x.id, x.parent, x.mountpoint)) =
+      (xs.map (fun x => (x.id, x.parent, x.mountpoint))).filter (fun k => atOrBelow bp k.2.2) := by
     intro xs; rw [List.filter_map]; rfl
-  have h2 : (t.mnts.filter (fun m => atOrBelow bp m.mp)).map (·.mp) = (t.mnts.map (·.mp)).filter (atOrBelow bp) := by
+  have h2 : (t.mnts.filter (fun m => atOrBelow bp m.mp)).map (fun m => (natBytes m.id, natBytes m.parent, m.mp)) =
+      (t.mnts.map (fun m => (natBytes m.id, natBytes m.parent, m.mp))).filter (fun k => atOrBelow bp k.2.2) := by
     rw [List.filter_map]; rfl
-  rw [h1, h2, entries_mountpoints, List.map_map]
+  rw [h1, h2, entries_keys, List.map_map]
   rfl
+
+/-- `ViewAgrees` with the ids written as digit strings (`natBytes` goes through `toString`,
+    which `decide` cannot evaluate; `KernelProbe.natBytes_eq`) -/
+theorem viewAgrees_intro {l : Layer} {bp : Bytes} {t : KTable} (view : Mounts)
+    (hm : l.mounts = getMountAndSubmounts view bp)
+    (hv : (view.list.filter (fun x => atOrBelow bp x.mountpoint)).map (fun x => (x.id, x.parent, x.mountpoint)) =
+      (t.mnts.filter (fun m => atOrBelow bp m.mp)).map
+        (fun m => (KernelProbe.digitBytes m.id, KernelProbe.digitBytes m.parent, m.mp))) :
+    ViewAgrees l bp t := by
+  refine ⟨view, hm, ?_⟩
+  rw [hv]
+  apply List.map_congr_left
+  intro m _
+  rw [KernelProbe.natBytes_eq, KernelProbe.natBytes_eq]
+
 /-- **umount_clears_buildroot** (GOAL A1): in a plain world whose kernel table has unique
     mount ids and agrees with the layer's cached view on the region at/below the build root,
     if `unmountLayer` returns normally with status `ok` ("unmounted") then the kernel table
@@ -500,7 +632,8 @@ theorem umount_no_call_refused (cfg : Config) (d : Defs) (name : Bytes) (w : Wor
     ((unmountLayer cfg d name).run.run w).2.kt.mnts =
         w.kt.mnts.filter (fun m => !atOrBelow (buildPath cfg l) m.mp) ∧
     (l.mounts.length ≠ 0 → ∀ st d', ((unmountLayer cfg d name).run.run w).1 = .ok (st, d') → st = .ok) := by
-  have hnone := kumountSeq_succeeds (buildPath cfg l) hbp (issueOrder l) w.kt hwf hview.perm hview.leafFirst
+  have hnone := kumountSeq_succeeds (buildPath cfg l) hbp (issueOrder l) w.kt hwf hview.perm
+    (hview.leafFirst (noCoveredL_of_noHidden hview hwf))
   have hcl := kumountSeq_cleared w.kt (issueOrder l) (atOrBelow (buildPath cfg l)) hwf.ids hview.perm hnone
   refine ⟨hnone, ?_, ?_⟩
   · by_cases hm : l.mounts.length = 0
@@ -593,13 +726,13 @@ def kt2 : KTable :=
     nextId := 35 }
 /-- what the probe makes of it (one entry per kernel mount, table order) -/
 def view2 : Mounts :=
-  { list := [ ⟨[], b!"/", [], [], b!"ext4", b!"rw", false, b!"8:1", [47]⟩,
-              ⟨[], b!"/home", [], [], b!"ext4", b!"rw", false, b!"8:2", [47]⟩,
-              ⟨[], b!"/b/L/x/build/proc", [], [], b!"proc", b!"rw", false, b!"0:4", [47]⟩,
-              ⟨[], b!"/b/L/x/build/dev", [], [], b!"devtmpfs", b!"rw", false, b!"0:5", [47]⟩,
-              ⟨[], b!"/b/L/x/build/dev/shm", [], [], b!"tmpfs", b!"rw", true, b!"0:20", [47]⟩,
-              ⟨[], b!"/b/L/x/build/dev/shm", [], [], b!"tmpfs", b!"rw", true, b!"0:21", [47]⟩,
-              ⟨[], b!"/b/L/xy", [], [], b!"tmpfs", b!"rw", false, b!"0:22", [47]⟩ ] }
+  { list := [ ⟨[], b!"/", [], [], b!"ext4", b!"rw", false, b!"8:1", [47], b!"1", b!"0"⟩,
+              ⟨[], b!"/home", [], [], b!"ext4", b!"rw", false, b!"8:2", [47], b!"25", b!"1"⟩,
+              ⟨[], b!"/b/L/x/build/proc", [], [], b!"proc", b!"rw", false, b!"0:4", [47], b!"30", b!"1"⟩,
+              ⟨[], b!"/b/L/x/build/dev", [], [], b!"devtmpfs", b!"rw", false, b!"0:5", [47], b!"31", b!"1"⟩,
+              ⟨[], b!"/b/L/x/build/dev/shm", [], [], b!"tmpfs", b!"rw", true, b!"0:20", [47], b!"32", b!"31"⟩,
+              ⟨[], b!"/b/L/x/build/dev/shm", [], [], b!"tmpfs", b!"rw", true, b!"0:21", [47], b!"33", b!"32"⟩,
+              ⟨[], b!"/b/L/xy", [], [], b!"tmpfs", b!"rw", false, b!"0:22", [47], b!"34", b!"1"⟩ ] }
 def l2 : Layer := { name := b!"x", layerPath := b!"/b/L/x", state := S_mounted,
                     mounts := getMountAndSubmounts view2 b!"/b/L/x/build" }
 def d2 : Defs := { layers := [l2], order := [b!"x"], mounts := view2 }
@@ -609,7 +742,7 @@ def w2 : World := { kt := kt2 }
 example : findLayer d2 b!"x" = some l2 ∧ isBusy l2 false = false ∧ l2.mounts.length = 4 := ⟨rfl, rfl, rfl⟩
 example : Plain w2 := ⟨rfl, rfl, rfl⟩
 example : buildPath Example.cfg0 l2 = b!"/b/L/x/build" := by decide
-example : ViewAgrees l2 (buildPath Example.cfg0 l2) w2.kt := ⟨view2, by rfl, by decide⟩
+example : ViewAgrees l2 (buildPath Example.cfg0 l2) w2.kt := (viewAgrees_intro view2 (by rfl) (by decide))
 example : NoHidden w2.kt.mnts := ⟨⟨by decide, by decide, by decide, by decide⟩, by decide⟩
 /-- deepest first; the two stacked mounts are two calls on the same target -/
 example : issueOrder l2 = [b!"/b/L/x/build/proc", b!"/b/L/x/build/dev/shm", b!"/b/L/x/build/dev/shm",
@@ -626,7 +759,7 @@ example : (w2.kt.mnts.filter (fun m => !atOrBelow (buildPath Example.cfg0 l2) m.
 example : ((unmountLayer Example.cfg0 d2 b!"x").run.run w2).2.kt.mnts.map (·.mp) =
     [b!"/", b!"/home", b!"/b/L/xy"] := by
   rw [(umount_no_call_refused Example.cfg0 d2 b!"x" w2 l2 rfl ⟨rfl, rfl, rfl⟩
-    ⟨⟨by decide, by decide, by decide, by decide⟩, by decide⟩ ⟨view2, by rfl, by decide⟩ (by decide) rfl).2.1]
+    ⟨⟨by decide, by decide, by decide, by decide⟩, by decide⟩ (viewAgrees_intro view2 (by rfl) (by decide)) (by decide) rfl).2.1]
   decide
 
 /-- GOAL A2: the administrator mounted something on `/b/L/x/build/dev/pts` after the probe: the
@@ -678,43 +811,104 @@ def kt4 : KTable :=
               { id := 40, parent := 1, dev := b!"8:1", root := b!"/src", mp := hostP, fstype := b!"ext4", source := b!"/dev/sda1" },
               m41, m42 ],
     nextId := 43 }
+def v41 : MountType := ⟨[], subP, [], [], b!"ext4", b!"rw", false, b!"8:1", b!"/a", b!"41", b!"40"⟩
+def v42 : MountType := ⟨[], hostP, [], [], b!"ext4", b!"rw", false, b!"8:1", b!"/b", b!"42", b!"40"⟩
 def view4 : Mounts :=
-  { list := [ ⟨[], b!"/", [], [], b!"ext4", b!"rw", false, b!"8:1", [47]⟩,
-              ⟨[], hostP, [], [], b!"ext4", b!"rw", false, b!"8:1", b!"/src"⟩,
-              ⟨[], subP, [], [], b!"ext4", b!"rw", false, b!"8:1", b!"/a"⟩,
-              ⟨[], hostP, [], [], b!"ext4", b!"rw", false, b!"8:1", b!"/b"⟩ ] }
+  { list := [ ⟨[], b!"/", [], [], b!"ext4", b!"rw", false, b!"8:1", [47], b!"1", b!"0"⟩,
+              ⟨[], hostP, [], [], b!"ext4", b!"rw", false, b!"8:1", b!"/src", b!"40", b!"1"⟩,
+              v41, v42 ] }
 def l4 : Layer := { name := b!"x", layerPath := b!"/b/L/x", state := S_mounted,
                     mounts := getMountAndSubmounts view4 b!"/b/L/x/build" }
 def d4 : Defs := { layers := [l4], order := [b!"x"], mounts := view4 }
 def w4 : World := { kt := kt4 }
 end Example3
 
-/-- **umount_hidden_submount_witness**: a table that obeys the tree discipline and agrees with
-    the layer's view, an idle layer — and still `umount` fails, on every retry (the world is left
-    as it was): the first target of the order "deepest path first" is the covered mount, which the
-    kernel refuses with EINVAL; unmounting the covering mount first would work.  The table has a
-    hidden mount (`¬ NoHidden`), which is exactly what `umount_no_call_refused` excludes. -/
-theorem umount_hidden_submount_witness :
-    Plain Example3.w4 ∧ KWF Example3.w4.kt.mnts ∧
+/-- the kernel table after the three unmounts: the host's root only -/
+def Example3.ktF : KTable := { Example3.kt4 with mnts := [Example3.kt4.mnts.headD Example3.m41] }
+
+theorem Example3.ktF_wf : KernelProbe.KWF Example3.ktF := by
+  intro m hm
+  simp only [Example3.ktF, Example3.kt4, List.headD_cons, List.mem_cons, List.not_mem_nil, or_false] at hm
+  subst hm
+  constructor <;> simp [Spec.TokenOK, Spec.IsB]
+
+/-- **umount_hidden_submount_fixed_witness** (after fix 05db66c; before it this table was the
+    witness of finding `umount-order-hidden-submount`: `umount` failed with EINVAL on every
+    retry).  The table obeys the tree discipline, has a hidden mount (`¬ NoHidden`: the second
+    mount on `mnt/host` covers `mnt/host/sub`), agrees with the layer's view, the layer is idle.
+    One listed mount covers a listed sibling, so `getMountAndSubmounts` lists along the mount
+    tree: the issue order asks for the covering mount first (the path-sorted order would ask for
+    the covered mountpoint first, which the kernel refuses), the kernel accepts every call, and
+    the whole `unmountLayer` run — re-probe included — ends `.ok` with status "unmounted" and
+    nothing left at or below the build root, the rest of the table untouched. -/
+theorem umount_hidden_submount_fixed_witness :
+    Plain Example3.w4 ∧ KWF Example3.w4.kt.mnts ∧ ¬ NoHidden Example3.w4.kt.mnts ∧
     ViewAgrees Example3.l4 (buildPath Example.cfg0 Example3.l4) Example3.w4.kt ∧
     findLayer Example3.d4 b!"x" = some Example3.l4 ∧ isBusy Example3.l4 false = false ∧
-    issueOrder Example3.l4 = [Example3.subP, Example3.hostP, Example3.hostP] ∧
-    ((unmountLayer Example.cfg0 Example3.d4 b!"x").run.run Example3.w4).1 = .error (.err "sys:EINVAL") ∧
-    ((unmountLayer Example.cfg0 Example3.d4 b!"x").run.run Example3.w4).2.kt = Example3.w4.kt ∧
-    (kumountSeq Example3.w4.kt [Example3.hostP, Example3.subP, Example3.hostP]).2.2 = none ∧
-    ¬ NoHidden Example3.w4.kt.mnts := by
-  have hfail : (kumountSeq Example3.w4.kt (issueOrder Example3.l4)) = ([], Example3.w4.kt, some .einval) := by
-    decide
+    ¬ NoCoveredL Example3.l4 ∧
+    issueOrder Example3.l4 = [Example3.hostP, Example3.subP, Example3.hostP] ∧
+    ((pathSorted Example3.view4 b!"/b/L/x/build").reverse.map (·.mountpoint) =
+        [Example3.subP, Example3.hostP, Example3.hostP] ∧
+      (kumountSeq Example3.w4.kt [Example3.subP, Example3.hostP, Example3.hostP]).2.2 = some .einval) ∧
+    (∃ d', ((unmountLayer Example.cfg0 Example3.d4 b!"x").run.run Example3.w4).1 = .ok (.ok, d')) ∧
+    ((unmountLayer Example.cfg0 Example3.d4 b!"x").run.run Example3.w4).2.kt.mnts =
+      Example3.w4.kt.mnts.filter (fun m => !atOrBelow (buildPath Example.cfg0 Example3.l4) m.mp) ∧
+    ((unmountLayer Example.cfg0 Example3.d4 b!"x").run.run Example3.w4).2.kt.mnts.map (·.mp) = [b!"/"] := by
   have hplain : Plain Example3.w4 := ⟨rfl, rfl, rfl⟩
-  obtain ⟨hkt, _, _, _, herr⟩ := unmountLayer_plain Example.cfg0 Example3.d4 b!"x" Example3.w4 Example3.l4 rfl
+  have hseq : kumountSeq Example3.w4.kt (issueOrder Example3.l4) =
+      (issueOrder Example3.l4, Example3.ktF, none) := by decide
+  have hcov : ¬ NoCoveredL Example3.l4 := by
+    intro h
+    have hl4 : Example3.l4.mounts = [Example3.view4.list.getD 1 Example3.v41, Example3.v41, Example3.v42] := by rfl
+    have := h Example3.v42 (by rw [hl4]; simp) Example3.v41 (by rw [hl4]; simp)
+    exact absurd this (by decide)
+  obtain ⟨hkt, _, _, _, _⟩ := unmountLayer_plain Example.cfg0 Example3.d4 b!"x" Example3.w4 Example3.l4 rfl
     hplain rfl (by decide)
-  refine ⟨hplain, ⟨by decide, by decide, by decide, by decide⟩, ⟨Example3.view4, by rfl, by decide⟩, rfl, rfl,
-    by rfl, ?_, ?_, by decide, ?_⟩
-  · exact herr .einval (by rw [hfail])
-  · rw [hkt, hfail]
+  rw [hseq] at hkt
+  have hktm : ((unmountLayer Example.cfg0 Example3.d4 b!"x").run.run Example3.w4).2.kt = Example3.ktF := hkt
+  refine ⟨hplain, ⟨by decide, by decide, by decide, by decide⟩, ?_, viewAgrees_intro Example3.view4 (by rfl) (by decide),
+    rfl, rfl, hcov, by rfl, ⟨by rfl, by decide⟩, ?_, by rw [hktm]; decide, by rw [hktm]; decide⟩
   · intro h
     have := h.sib Example3.m42 (by simp [Example3.w4, Example3.kt4]) Example3.m41 (by simp [Example3.w4, Example3.kt4])
       (by decide) (.inl rfl)
     exact absurd this (by decide)
+  · -- the run: the loop succeeds, the re-probe of the remaining table succeeds
+    rcases unmountLayer_run_cases Example.cfg0 Example3.d4 b!"x" Example3.w4 Example3.l4 rfl with
+      ⟨hb, _⟩ | ⟨_, hm0, _⟩ | ⟨_, _, hrunOk, _⟩
+    · exact absurd hb (by decide)
+    · exact absurd hm0 (by decide)
+    · have hloop := unmountMounts_run Example3.l4.mounts.reverse Example3.w4 hplain
+      obtain ⟨_, hfs, hlk, hok, _⟩ := hloop
+      have hnone : (kumountSeq Example3.w4.kt (Example3.l4.mounts.reverse.map (·.mountpoint))).2.2 = none := by
+        show (kumountSeq Example3.w4.kt (issueOrder Example3.l4)).2.2 = none
+        rw [hseq]
+      have hkf : (kumountSeq Example3.w4.kt (Example3.l4.mounts.reverse.map (·.mountpoint))).2.1 = Example3.ktF := by
+        show (kumountSeq Example3.w4.kt (issueOrder Example3.l4)).2.1 = Example3.ktF
+        rw [hseq]
+      have hok' := hok hnone
+      generalize hr1 : (unmountMounts Example3.l4.mounts.reverse).run.run Example3.w4 = r1 at hfs hlk hok' hrunOk
+      obtain ⟨x, w1⟩ := r1
+      simp only at hfs hlk hok'
+      subst hok'
+      rw [hrunOk PUnit.unit w1 rfl]
+      rw [hkf] at hlk
+      have hM := KernelProbe.probe_ok (t := w1.kt) (by rw [hlk]; exact Example3.ktF_wf)
+      unfold unmountTail
+      rw [Lc.RunM.run_bind, Probe.refresh_run Example.cfg0 Example3.d4 w1 _ hM]
+      have hfs' : w1.fs = [] := hfs
+      generalize ({ list := C12.entries (List.map toSpec w1.kt.mnts),
+                    devices := C12.devicesOf (List.map toSpec w1.kt.mnts) } : Mounts) = M
+      simp only []
+      have hfl : findLayer { Example3.d4 with mounts := M, layers := Example3.d4.layers.map fun l =>
+            { l with overlain := (overlayLowerdirs M).contains (buildPath Example.cfg0 l) } } b!"x" =
+          some { Example3.l4 with overlain := (overlayLowerdirs M).contains (buildPath Example.cfg0 Example3.l4) } := rfl
+      rw [Lc.RunM.run_bind]
+      unfold getL
+      rw [hfl]
+      simp only [Lc.RunM.run_pure]
+      rw [Lc.RunM.run_bind, Lc.RunM.run_getW]
+      simp only []
+      rw [Lc.RunM.run_bind, Lc.RunM.run_liftRes, hfs']
+      exact ⟨_, rfl⟩
 
 end Lc.Props.C03
